@@ -98,12 +98,42 @@ func genWorkload(r *vlib.RNG, nsteps int) *Workload {
 	return w
 }
 
+type editEv struct {
+	idx     int // storage op count when the commit hook ran (manifest written and synced)
+	flush   bool
+	txn     bool
+	nAdded  int
+	nDelete int
+}
+
 type runOut struct {
 	stor    *vstor.Stor
 	batches []*Batch
 	openIdx int // op count when the first Open returned
 	err     string
-	jobs    []int // op indexes at which background edits were committed (for classification)
+	mu      sync.Mutex
+	edits   []editEv
+}
+
+var (
+	hookOnce sync.Once
+	outs     sync.Map // storage.Storage -> *runOut
+)
+
+func installHook() {
+	hookOnce.Do(func() {
+		leveldb.VerifSetCommitHook(func(e leveldb.VerifEdit) {
+			x, ok := outs.Load(e.Stor)
+			if !ok {
+				return
+			}
+			o := x.(*runOut)
+			ev := editEv{idx: o.stor.OpCount(), flush: e.HasJournal, txn: !e.HasJournal && e.HasSeq, nAdded: len(e.Added), nDelete: len(e.Deleted)}
+			o.mu.Lock()
+			o.edits = append(o.edits, ev)
+			o.mu.Unlock()
+		})
+	})
 }
 
 func mkBatch(recs []dbh.Rec) *leveldb.Batch {
@@ -118,9 +148,13 @@ func mkBatch(recs []dbh.Rec) *leveldb.Batch {
 	return b
 }
 
-func runWorkload(w *Workload) (out runOut) {
+func runWorkload(w *Workload) (out *runOut) {
+	out = &runOut{}
 	stor := vstor.New(true)
 	out.stor = stor
+	installHook()
+	outs.Store(stor, out)
+	defer outs.Delete(stor)
 	o := w.Cfg.Options()
 	db, err := leveldb.Open(stor, o)
 	if err != nil {
@@ -312,6 +346,279 @@ func checkImage(w *Workload, batches []*Batch, img *vstor.Stor, crashIdx int, us
 	return ""
 }
 
+// ---- (K) correspondence with the record-level persistence model (Store/Crash.v) ----
+
+type kev struct {
+	idx, ord int
+	op       string
+}
+
+// kEvents translates what was observed (op log, batch windows, committed edits) into model operations.
+func kEvents(out *runOut) []kev {
+	ops := out.stor.Ops()
+	var evs []kev
+	ord := 0
+	add := func(idx int, op string) { evs = append(evs, kev{idx, ord, op}); ord++ }
+	for _, b := range out.batches {
+		txnIdx := -1
+		for _, e := range out.edits {
+			if e.txn && e.idx > b.StartIdx && e.idx <= b.AckIdx {
+				txnIdx = e.idx
+			}
+		}
+		if txnIdx >= 0 {
+			if os.Getenv("C04_DEBUG") == "2" {
+				fmt.Fprintf(os.Stderr, "TXN batch start=%d ack=%d txnIdx=%d\n", b.StartIdx, b.AckIdx, txnIdx)
+				for i := b.StartIdx; i < b.AckIdx && i < len(ops); i++ {
+					if ops[i].Kind != vstor.OpRead && ops[i].Kind != vstor.OpWrite || ops[i].Fd.Type <= 2 {
+						fmt.Fprintf(os.Stderr, "   %s\n", ops[i])
+					}
+				}
+				for _, e := range out.edits {
+					if e.idx > b.StartIdx && e.idx <= b.AckIdx {
+						fmt.Fprintf(os.Stderr, "   edit %+v\n", e)
+					}
+				}
+			}
+			add(txnIdx-1, fmt.Sprintf("PTxnCommit %d", len(b.Recs)))
+			continue
+		}
+		widx, synced := -1, false
+		for i := b.StartIdx; i < b.AckIdx && i < len(ops); i++ {
+			if ops[i].Fd.Type == 2 && ops[i].Kind == vstor.OpWrite && ops[i].N > 0 {
+				widx = i
+			}
+			if ops[i].Fd.Type == 2 && ops[i].Kind == vstor.OpSync && widx >= 0 {
+				synced = true
+			}
+		}
+		if widx < 0 {
+			return nil // cannot place this batch: give up on this workload
+		}
+		add(widx, fmt.Sprintf("PWrite %d %v", len(b.Recs), synced))
+	}
+	for i, o := range ops {
+		if i < out.openIdx || o.Fd.Type != 2 || o.Fail {
+			continue
+		}
+		switch o.Kind {
+		case vstor.OpCreate:
+			add(i, "PRotate")
+		case vstor.OpRemove:
+			add(i, "PDropFrozen")
+		}
+	}
+	for _, e := range out.edits {
+		if e.idx < out.openIdx {
+			continue
+		}
+		switch {
+		case e.flush:
+			add(e.idx-1, "PFlushEdit")
+			add(e.idx-1, "PManSync")
+		case e.txn:
+		default:
+			add(e.idx-1, "PCompactEdit")
+			add(e.idx-1, "PManSync")
+		}
+	}
+	sort.SliceStable(evs, func(i, j int) bool {
+		if evs[i].idx != evs[j].idx {
+			return evs[i].idx < evs[j].idx
+		}
+		return evs[i].ord < evs[j].ord
+	})
+	if os.Getenv("C04_DEBUG") == "3" {
+		live, frozen := 0, -1
+		for k, e := range evs {
+			switch {
+			case strings.HasPrefix(e.op, "PWrite"):
+				live++
+			case e.op == "PRotate":
+				if frozen < 0 {
+					frozen, live = live, 0
+				}
+			case e.op == "PDropFrozen":
+				frozen = -1
+			case strings.HasPrefix(e.op, "PTxn"):
+				if live != 0 || frozen >= 0 {
+					fmt.Fprintf(os.Stderr, "TXN-PRECOND live=%d frozen=%d at ev %d idx=%d\n", live, frozen, k, e.idx)
+					lo := evs[k].idx - 60
+					for i := lo; i <= evs[k].idx+2 && i < len(ops); i++ {
+						if i >= 0 && (ops[i].Kind != vstor.OpRead && ops[i].Kind != vstor.OpWrite || ops[i].Fd.Type <= 2) {
+							fmt.Fprintf(os.Stderr, "   %s\n", ops[i])
+						}
+					}
+					for _, b := range out.batches {
+						if b.AckIdx > lo && b.StartIdx <= e.idx+2 {
+							fmt.Fprintf(os.Stderr, "   batch %d [%d,%d] n=%d txn=%v\n", b.ID, b.StartIdx, b.AckIdx, len(b.Recs), b.Txn)
+						}
+					}
+					st := k - 8
+					if st < 0 {
+						st = 0
+					}
+					for _, x := range evs[st : k+1] {
+						fmt.Fprintf(os.Stderr, "   ev @%d %s\n", x.idx, x.op)
+					}
+				}
+			}
+		}
+	}
+	return evs
+}
+
+// kPointOK: the crash point is not inside a write/transaction call and no manifest write is awaiting its sync.
+func kPointOK(out *runOut, c int) bool {
+	if c < out.openIdx {
+		return false
+	}
+	for _, b := range out.batches {
+		if b.StartIdx < c && c < b.AckIdx {
+			return false
+		}
+	}
+	ops := out.stor.Ops()
+	pending := false
+	for i := 0; i < c && i < len(ops); i++ {
+		if ops[i].Fd.Type == 1 && ops[i].Kind == vstor.OpWrite {
+			pending = true
+		}
+		if ops[i].Fd.Type == 1 && ops[i].Kind == vstor.OpSync {
+			pending = false
+		}
+	}
+	return !pending
+}
+
+// keptOf reopens an image and returns the issue indexes of the batches whose marker is present.
+func keptOf(w *Workload, batches []*Batch, img *vstor.Stor) ([]int, error) {
+	db, err := leveldb.Open(img, w.Cfg.Options())
+	if err != nil {
+		return nil, err
+	}
+	defer db.Close()
+	got, err := scan(db)
+	if err != nil {
+		return nil, err
+	}
+	var kept []int
+	for i, b := range batches {
+		if _, ok := got[string(marker(b.ID))]; ok {
+			kept = append(kept, i)
+		}
+	}
+	return kept, nil
+}
+
+func kCases(w *Workload, out *runOut, r *vlib.RNG, max int) []string {
+	evs := kEvents(out)
+	if evs == nil {
+		return nil
+	}
+	cands := map[int]bool{out.stor.OpCount(): true}
+	for _, b := range out.batches {
+		cands[b.AckIdx] = true
+	}
+	for _, e := range evs {
+		cands[e.idx+1] = true
+	}
+	var pts []int
+	for c := range cands {
+		if kPointOK(out, c) {
+			pts = append(pts, c)
+		}
+	}
+	sort.Ints(pts)
+	var cases []string
+	for len(cases) < max && len(pts) > 0 {
+		i := r.Intn(len(pts))
+		c := pts[i]
+		pts = append(pts[:i], pts[i+1:]...)
+		var mops []string
+		nw := 0
+		for _, e := range evs {
+			if e.idx < c {
+				mops = append(mops, e.op)
+				if strings.HasPrefix(e.op, "PWrite") || strings.HasPrefix(e.op, "PTxn") {
+					nw++
+				}
+			}
+		}
+		nb := 0
+		for _, b := range out.batches {
+			if b.AckIdx <= c {
+				nb++
+			}
+		}
+		if nw != nb && os.Getenv("C04_DEBUG") != "" {
+			fmt.Fprintf(os.Stderr, "K-DEBUG c=%d events=%d batches=%d\n", c, nw, nb)
+			for i, b := range out.batches {
+				if b.AckIdx <= c+50 && b.AckIdx >= c-200 {
+					fmt.Fprintf(os.Stderr, "  batch %d start=%d ack=%d n=%d sync=%v\n", i, b.StartIdx, b.AckIdx, len(b.Recs), b.Sync)
+				}
+			}
+			for _, e := range evs {
+				if e.idx >= c-200 && e.idx <= c+50 {
+					fmt.Fprintf(os.Stderr, "  ev %d %s\n", e.idx, e.op)
+				}
+			}
+		}
+		for _, keepAll := range []bool{false, true} {
+			pol := vstor.TailLost
+			if keepAll {
+				pol = vstor.TailKept
+			}
+			img := out.stor.ImageAt(c, vstor.ImageOpts{Policy: pol})
+			kept, err := keptOf(w, out.batches, img)
+			if err != nil {
+				continue
+			}
+			var ks []string
+			for _, k := range kept {
+				ks = append(ks, fmt.Sprint(k))
+				if os.Getenv("C04_DEBUG") != "" && out.batches[k].AckIdx > c {
+					b := out.batches[k]
+					fmt.Fprintf(os.Stderr, "K-DEBUG2 c=%d keepAll=%v batch %d kept but start=%d ack=%d n=%d\n", c, keepAll, k, b.StartIdx, b.AckIdx, len(b.Recs))
+				}
+			}
+			if os.Getenv("C04_DEBUG") != "" {
+				prev := -1
+				for _, k := range kept {
+					if k != prev+1 {
+						b := out.batches[prev+1]
+						fmt.Fprintf(os.Stderr, "K-DEBUG3 c=%d keepAll=%v batch %d missing start=%d ack=%d n=%d sync=%v txn=%v\n", c, keepAll, prev+1, b.StartIdx, b.AckIdx, len(b.Recs), b.Sync, b.Txn)
+					}
+					prev = k
+				}
+			}
+			dbg := ""
+			if os.Getenv("C04_DEBUG") != "" {
+				dbg = fmt.Sprintf("(* c=%d ", c)
+				for i, b := range out.batches {
+					if b.AckIdx > c-120 && b.StartIdx < c+40 {
+						dbg += fmt.Sprintf("b%d[%d,%d n%d s%v] ", i, b.StartIdx, b.AckIdx, len(b.Recs), b.Sync)
+					}
+				}
+				for _, e := range evs {
+					if e.idx > c-120 && e.idx < c+40 {
+						dbg += fmt.Sprintf("@%d:%s ", e.idx, e.op)
+					}
+				}
+				ops := out.stor.Ops()
+				for i := c - 60; i < c+5 && i < len(ops); i++ {
+					if i >= 0 && (ops[i].Kind == vstor.OpSync || ops[i].Kind == vstor.OpCreate || ops[i].Kind == vstor.OpRemove || (ops[i].Kind == vstor.OpWrite && ops[i].Fd.Type <= 2)) {
+						dbg += fmt.Sprintf("#%d:%s:%s ", i, ops[i].Kind, ops[i].Fd)
+					}
+				}
+				dbg += "*) "
+			}
+			cases = append(cases, fmt.Sprintf("%sKCrash [%s] %v [%s]", dbg, strings.Join(mops, "; "), keepAll, strings.Join(ks, "; ")))
+		}
+	}
+	return cases
+}
+
 type caseRef struct {
 	W        *Workload `json:"workload"`
 	CrashIdx int       `json:"crash_idx"`
@@ -390,7 +697,7 @@ func main() {
 	root := vlib.NewRNG(a.Seed)
 	type job struct {
 		w    *Workload
-		out  runOut
+		out  *runOut
 		i    int
 		pol  vstor.TailPolicy
 		van  bool
@@ -498,4 +805,31 @@ func main() {
 	}
 	close(jobs)
 	wg.Wait()
+	// (K) dedicated workloads: no reopen, default manifest size (the model has neither)
+	nk, perK := 6, 14
+	if a.Thorough() {
+		nk, perK = 60, 40
+	}
+	var kcases []string
+	for wi := 0; wi < nk; wi++ {
+		r := root.Fork()
+		w := genWorkload(r, r.Range(30, 90))
+		w.Cfg.MaxManifest = 0
+		var steps []Step
+		for _, st := range w.Steps {
+			if st.Kind != "reopen" {
+				steps = append(steps, st)
+			}
+		}
+		w.Steps = steps
+		out := runWorkload(w)
+		if out.err != "" {
+			continue
+		}
+		kc := kCases(w, out, r, perK)
+		res.Count("k_workloads", 1)
+		res.Count("k_crash_cases", len(kc))
+		kcases = append(kcases, kc...)
+	}
+	res.WriteCases("From GL Require Import Store.Crash Corr.C04Run.", "c04case", "mismatches", kcases, 16)
 }
